@@ -21,10 +21,6 @@ theorem isForked_translated_eq (s : Option Nat) (head : Nat) :
       Bool.false_eq_true, ↓reduceIte, tCmp_le_zero]
     simp
 
-/-- a nil head is "not forked" (no panic). -/
-theorem isForked_translated_nil (s : Option Int) : Translated.isForked s none = some false := by
-  cases s <;> simp [Translated.isForked, Translated.isForked.b1]
-
 /-- the fork map of the consensus model as the Go map `c.HF` (keys are Go `int`s). -/
 def hfMapOf (c : Aqv.Consensus.Config) : Int64 → Option Int :=
   fun k => if k.toInt < 0 then none else (c.getHF k.toInt.toNat).map Nat.cast
@@ -65,11 +61,6 @@ theorem ChainConfig_GetBlockVersion_translated_eq (c : Aqv.Consensus.Config) (he
   simp only [Translated.ChainConfig_GetBlockVersion, Aqv.Pow.getBlockVersion, h9, h8, h5, Option.isNone_some,
     Bool.false_eq_true, ↓reduceIte]
   cases c.isHF 9 height <;> cases c.isHF 8 height <;> cases c.isHF 5 height <;> rfl
-
-/-- a nil height panics ("GetBlockVersion: got nil height"). -/
-theorem ChainConfig_GetBlockVersion_translated_nil (m : Int64 → Option Int) :
-    Translated.ChainConfig_GetBlockVersion m none = none := by
-  simp [Translated.ChainConfig_GetBlockVersion]
 
 /-- params.(*ChainConfig).IsHomestead / IsByzantium / IsConstantinople = isForked(c.<X>Block, num) -/
 theorem ChainConfig_IsHomestead_translated_eq (blk : Option Nat) (num : Nat) :
